@@ -80,12 +80,20 @@ Definition vstep (res : list (string * pv)) (a : string) : list (string * pv) :=
     end
   else res.
 
+(* UnquoteName: a quoted NAME field is the text between the quotes as it is (operator<, a name with a colon); an unquoted one
+   (NULL) is cleaned as every other text *)
+Definition unquote_name (a : string) : string :=
+  let t := py_strip a in
+  if Nat.leb 2 (String.length t) && prefixb (String DQ "") t && String.eqb (substring (String.length t - 1) 1 t) (String DQ "")
+  then py_strip (substring 1 (String.length t - 2) t)
+  else py_strip (mass_replace a).
+
 (* Get_ValuesFromOutside *)
 Definition values_from_outside (o : string) : option (list (string * pv)) :=
   if no_char ";" o && negb (no_char ":" o) then
-    let all := split_on ":" o in
+    let all := qsplit ":" o in                                                  (* colons inside the quoted name are text *)
     a0 <- nth_str 0 all ;; a1 <- nth_str 1 all ;; a2 <- nth_str 2 all ;;     (* IndexError *)
-    Some [("id", PStr (py_strip (mass_replace a0))); ("name", PStr (py_strip (mass_replace a1))); ("type", PStr (py_strip (mass_replace a2)))]
+    Some [("id", PStr (py_strip (mass_replace a0))); ("name", PStr (unquote_name a1)); ("type", PStr (py_strip (mass_replace a2)))]
   else
     Some (fold_left vstep (qsplit ";" o) []).
 
